@@ -92,6 +92,11 @@ class RegionModel(PyObj):
                     c.oblige("pre", "sky_within.degrees_flag_for_degree_positions", False)
                 return SArr(uid("inside"), (ra.shape_[0],), lambda idx: Sym(WITHIN(rl(a.at(idx)), rl(d.at(idx)))))
             return Model(sw, 'Region.sky_within')
+        if name in ('union', 'without', 'intersect', 'symmetric_difference', 'add_circles', 'add_pixels', 'add_poly', '_renorm'):
+            # a mutating operation on the caller's region: recorded, the frame obligations speak about it
+            def mutate(c, *a, **k):
+                self.mutated = True
+            return Model(mutate, 'Region.' + name)
         self.mutated = True
         raise Undecided("Region.%s used by masking code" % name)
 
